@@ -38,9 +38,22 @@ def stAToJson (pipe : Bool) (s : StA) : Json :=
   Json.mkObj [("items", itemsJson pipe s.out), ("completion", Json.str (String.ofList s.completion)),
     ("finished", Json.bool s.finished), ("overflow", Json.bool s.overflow)]
 
+/-- what is observed at the far end: the producer's queue, the unconfigured piped handler's queue, or the queue,
+    `completion` and finished flag of a piped handler with its own configuration -/
+def farEnd (pc : Option Cfg) (pipe : Bool) (out : List (Option Str)) : List (String × Json) :=
+  match pc with
+  | some c2 =>
+    let t := pipeTargetCfg c2 out
+    [("items", itemsJson false t.out), ("tcompletion", Json.str (String.ofList t.completion)), ("tfinished", Json.bool t.finished)]
+  | none => [("items", itemsJson pipe out)]
+
 def handle (op : String) (j : Json) : Except String Json := do
   match op with
   | "runMany" =>
+    let pc ← match j.getObjVal? "pipe_cfg" with
+      | .ok (.null) => pure none
+      | .ok pj => do pure (some (← cfgOfJson pj))
+      | _ => pure none
     let cfg ← cfgOfJson (← j.getObjVal? "cfg")
     let e ← endOfString (← (← j.getObjVal? "end").getStr?)
     let tok := match j.getObjVal? "tokens" with | .ok (.bool b) => b | _ => false
@@ -49,9 +62,15 @@ def handle (op : String) (j : Json) : Except String Json := do
       (← cj.getArr?).toList.mapM strOf
     let asis := match j.getObjVal? "asis" with | .ok (.bool b) => b | _ => false
     if asis then
-      pure (Json.arr (css.map (fun cs => stAToJson pipe (runA cfg 64 (if tok then viaTokens cs else cs) e))).toArray)
+      pure (Json.arr (css.map (fun cs =>
+        let s := runA cfg 64 (if tok then viaTokens cs else cs) e
+        Json.mkObj (farEnd pc pipe s.out ++ [("completion", Json.str (String.ofList s.completion)),
+          ("finished", Json.bool s.finished), ("overflow", Json.bool s.overflow)]))).toArray)
     else
-      pure (Json.arr (css.map (fun cs => stToJson pipe (run cfg (if tok then viaTokens cs else cs) e))).toArray)
+      pure (Json.arr (css.map (fun cs =>
+        let s := run cfg (if tok then viaTokens cs else cs) e
+        Json.mkObj (farEnd pc pipe s.out ++ [("completion", Json.str (String.ofList s.completion)),
+          ("finished", Json.bool s.finished)]))).toArray)
   | "spec" =>
     let cfg ← cfgOfJson (← j.getObjVal? "cfg")
     let e ← endOfString (← (← j.getObjVal? "end").getStr?)
@@ -82,7 +101,15 @@ def handle (op : String) (j : Json) : Except String Json := do
         let h := usageRun fx sf site cs a b ee
         Json.mkObj [("items", Json.arr ((consumerItems h).map (fun o => match o with | none => Json.null | some c => Json.str (String.ofList c))).toArray),
           ("completion", Json.str (String.ofList h.st.completion)), ("finished", Json.bool h.st.finished),
-          ("event", Json.bool (eventSetAt fx site cs a))])).toArray)
+          ("event", Json.bool (eventSetAt fx site cs a)),
+          ("returned", Json.str (String.ofList (waiterReturn fx site cs a)))])).toArray)
+  | "topk" =>
+    -- {"k", "text"}: the line-by-line code and the scans on one buffer
+    let k ← (← j.getObjVal? "k").getNat?
+    let t ← strOf (← j.getObjVal? "text")
+    pure (Json.mkObj [("returned", Json.str (String.ofList (returned k t))), ("rest", Json.str (String.ofList (restBuffer k t))),
+      ("lines", Json.num (qualLines t)), ("scan_rest", Json.str (String.ofList ((dropTopK k none t).getD []))),
+      ("scan_lines", Json.num (qualCount none t))])
   | _ => throw s!"unknown op C18.{op}"
 
 end NemoVerif.Drive.C18
